@@ -486,7 +486,9 @@ type c12hpHost struct {
 	directOK    bool                                              // outcome of a force-direct dial that is not a simultaneous-connect attempt
 	punchOK     func(k int) bool                                  // outcome of the k-th (0-based) simultaneous-connect dial
 	failBlocks  bool                                              // a failing dial blocks until the context deadline instead of failing after 300 ms
-	lateAt      int                                               // the remote's own dial lands an INBOUND direct connection during the lateAt-th failed punch (1-based, 0 = never)
+	lateAt      int                                               // a direct connection appears during the lateAt-th failed punch (1-based, 0 = never): the remote's own dial landing
+	lateDial    bool                                              // a direct connection appears during the preliminary direct dial (the one that is no simultaneous connect), which fails
+	lateOut     bool                                              // the appearing direct connection is an OUTBOUND one (dialled by another subsystem of this host) instead of an inbound one
 	remoteEnd   func(k int, remote *c12hpStream, rec *c12hpCoord) // drives the far end of the k-th coordination stream
 	streamError func(k int) error                                 // NewStream fails (e.g. protocol negotiation) for the k-th stream
 	nPunch      int
@@ -525,6 +527,16 @@ func (h *c12hpHost) addConn(relayed bool, dir network.Direction) *c12hpConn {
 	c := c12hpNewConn(h.w, h.connSeq, relayed, c12hpLimitedFor(h.limFlags, relayed), dir)
 	h.conns = append(h.conns, c)
 	return c
+}
+
+// addLate: the environment produces a direct connection to the peer while the code under test is busy with
+// something else (the remote's dial getting through, or another subsystem of this host dialling the peer).
+func (h *c12hpHost) addLate() *c12hpConn {
+	dir := network.DirInbound
+	if h.lateOut {
+		dir = network.DirOutbound
+	}
+	return h.addConn(false, dir)
 }
 
 func (h *c12hpHost) hasDirect() bool {
@@ -663,6 +675,8 @@ func (h *c12hpHost) Connect(ctx context.Context, pi peer.AddrInfo) error {
 		late = h.lateAt != 0 && h.lateAt == k+1
 		h.mu.Unlock()
 		ok = h.punchOK(k)
+	} else {
+		late = h.lateDial
 	}
 	// a dial takes (virtual) time
 	select {
@@ -675,15 +689,15 @@ func (h *c12hpHost) Connect(ctx context.Context, pi peer.AddrInfo) error {
 		// the other flavour of a failed dial: nothing answers until the caller's deadline
 		<-ctx.Done()
 		if late {
-			h.addConn(false, network.DirInbound)
+			h.addLate()
 		}
 		h.setResult(idx, "err:context-deadline", dial)
 		return ctx.Err()
 	}
 	if !ok {
 		if late {
-			// our dial failed but the remote's simultaneous dial got through: an inbound direct connection appears
-			h.addConn(false, network.DirInbound)
+			// our dial failed but a direct connection appears meanwhile (the remote's dial got through, or somebody else's did)
+			h.addLate()
 		}
 		h.setResult(idx, "err:dial-failed", dial)
 		return errors.New("c12hp: all dials failed")
